@@ -59,7 +59,25 @@ fn run_case(_kind: &str, idx: u64, rng: &mut Rng, mon: &mut Mon, _tier: Tier) {
         classes.push(c);
         mon.count(&format!("{}_joints", c));
     }
-    let c = Constraints::new(from, to, 0.0);
+    // all three ways of setting the limits
+    let ctor = rng.usize(3);
+    let c = match ctor {
+        0 => Constraints::new(from, to, 0.0),
+        1 => {
+            let mut c = Constraints::new([0.0; 6], [1.0; 6], 0.0);
+            c.update_range(from, to);
+            c
+        }
+        _ => {
+            let r: [std::ops::RangeInclusive<f64>; 6] = std::array::from_fn(|j| from[j].to_degrees()..=to[j].to_degrees());
+            let c = Constraints::from_degrees(r, 0.0);
+            // what it stored is what the arcs are judged by
+            from = c.from;
+            to = c.to;
+            c
+        }
+    };
+    mon.count(&format!("constructor.{}", ["new", "update_range", "from_degrees"][ctor]));
     if classes.iter().any(|c| c.starts_with("wrap")) {
         mon.nontrivial(hash_f64s(&[from, to].concat()));
     }
@@ -100,6 +118,6 @@ fn run_case(_kind: &str, idx: u64, rng: &mut Rng, mon: &mut Mon, _tier: Tier) {
         }
     }
     if idx < 2 {
-        mon.sample(json!({"from": jf(&from), "to": jf(&to), "classes": classes, "example_draw": jf(&c.random_angles())}));
+        mon.sample(json!({"from": jf(&from), "to": jf(&to), "classes": classes, "example_draw": guarded(|| c.random_angles()).map(|d| jf(&d)).unwrap_or(json!("panicked"))}));
     }
 }
